@@ -30,6 +30,30 @@ namespace romea
 namespace core
 {
 
+#ifdef ROMEA_CORE_COMMON_VERIF
+// Verification hook H1 (add-only, compiled only with -DROMEA_CORE_COMMON_VERIF): per-iteration trace of the
+// ICP loop, thread local, read and cleared by the verification harness.
+#define ROMEA_CORE_COMMON_VERIF_ICP_TRACE 1
+namespace verif
+{
+struct IcpTraceEntry
+{
+  size_t iteration;
+  bool success;
+  double rmse;
+  size_t matchedPairs;
+  std::vector<double> transformation;  // row-major homogeneous matrix held by the RANSAC model
+  // only filled when icpTraceDetail() is true: nearest-neighbour candidates before the one-to-one filter
+  // (source index, target index, square distance) and the (source, target) pairs kept by it
+  std::vector<size_t> candidateSources, candidateTargets;
+  std::vector<double> candidateSquareDistances;
+  std::vector<size_t> keptSources, keptTargets;
+};
+std::vector<IcpTraceEntry> & icpTrace();
+bool & icpTraceDetail();
+}  // namespace verif
+#endif
+
 template<class PointType>
 class FindRigidTransformationByICP
 {
